@@ -397,4 +397,70 @@ def toolRounds {ρ κ θ : Type} (evs : List (TEv ρ κ θ)) : Nat := (evs.filte
 /-- number of plain `complete` calls -/
 def completions {ρ κ θ : Type} (evs : List (TEv ρ κ θ)) : Nat := (evs.filter TEv.isComplete).length
 
+/-! ## 4. Histories on one live object: public attributes re-assigned between (and during) calls
+
+  `ChaperoneLoop`, `RegenerativeSwarm` and `Nucleus` are dataclasses whose limits are plain public attributes
+  (`loop.max_retries = 1`, `swarm.max_regenerations = 0`, `nucleus.transcription_log = []` …) and one object
+  serves many calls.  The attributes are part of the *environment state* `σ` — the same state the adversarial
+  callbacks carry — because everybody who holds the object can assign them: the caller between two calls
+  (`ObjOp.assign`, an arbitrary function `σ → σ`) and the callbacks themselves while a call is running (their
+  transition functions return the new `σ`).  Each entry point reads its limits from the state *it is entered
+  with*, as the code reads `self.max_retries` when `heal` starts (`range(self.max_retries + 1)` is evaluated
+  once), and keeps its private instance state `π` (`_worker_counter` and the event lists of the swarm, the
+  `transcription_log` of the nucleus) from call to call. -/
+
+inductive ObjOp (σ α : Type) where
+  /-- anything the holder of the object does between two calls: `obj.attr = v`, new scripts for the callbacks … -/
+  | assign (f : σ → σ)
+  /-- one call of the entry point with argument `a` (prompt / task / per-call configuration) -/
+  | call (a : α)
+
+/-- one operation on the object: new private state, new environment state, the call's result -/
+def objStep {σ π α ρ : Type} (call : π → σ → α → π × σ × ρ) (p : π) (s : σ) : ObjOp σ α → π × σ × Option ρ
+  | .assign f => (p, f s, none)
+  | .call a => ((call p s a).1, (call p s a).2.1, some (call p s a).2.2)
+
+/-- A history on one object: for every operation the private and environment state it *started in* and, for a
+    call, its result. -/
+def runObj {σ π α ρ : Type} (call : π → σ → α → π × σ × ρ) : π → σ → List (ObjOp σ α) → List (π × σ × Option ρ)
+  | _, _, [] => []
+  | p, s, op :: ops =>
+    (p, s, (objStep call p s op).2.2) :: runObj call (objStep call p s op).1 (objStep call p s op).2.1 ops
+
+/-- A live `ChaperoneLoop`: its callbacks and how its public limits are read off the environment state. -/
+structure HealObj (σ κ C : Type) where
+  adv : HealAdv σ κ C
+  /-- `self.max_retries` -/
+  retriesOf : σ → Int
+  /-- the arithmetic of `self.confidence_decay` -/
+  opsOf : σ → ConfOps C
+
+/-- `loop.heal(prompt)` on the live object -/
+def HealObj.call {σ κ C : Type} (o : HealObj σ κ C) (_ : Unit) (s : σ) (prompt : String) :
+    Unit × σ × HealRun σ κ C :=
+  ((), (heal (o.opsOf s) ⟨o.retriesOf s⟩ o.adv s prompt).st, heal (o.opsOf s) ⟨o.retriesOf s⟩ o.adv s prompt)
+
+/-- A live `RegenerativeSwarm`. -/
+structure SwarmObj (σ W ω η ι τ : Type) where
+  adv : SwarmAdv σ W ω η ι τ
+  /-- `self.max_regenerations`, `self.max_steps_per_worker` -/
+  cfgOf : σ → SwarmCfg
+  /-- `_is_success`, `_calculate_entropy` and `self.entropy_threshold` -/
+  codeOf : σ → SwarmCode ω
+  /-- the initial `memory_hints = []` -/
+  hints0 : η
+
+/-- `swarm.supervise(task)` on the live object; the private state is `SwarmSt` -/
+def SwarmObj.call {σ W ω η ι τ : Type} (o : SwarmObj σ W ω η ι τ) (sw : SwarmSt ι η) (s : σ) (task : τ) :
+    SwarmSt ι η × σ × SwarmRun σ W ω η ι :=
+  ((supervise (o.codeOf s) (o.cfgOf s) o.adv task o.hints0 sw s).sw,
+   (supervise (o.codeOf s) (o.cfgOf s) o.adv task o.hints0 sw s).st,
+   supervise (o.codeOf s) (o.cfgOf s) o.adv task o.hints0 sw s)
+
+/-- `nucleus.transcribe_with_tools(…, max_iterations, auto_execute)` on a live `Nucleus`: the budget is an
+    argument of each call, the private state is `transcription_log`. -/
+def nucCall {σ ρ κ θ : Type} (adv : ToolAdv σ ρ κ θ) (log : List (TLog ρ θ)) (s : σ) (cfg : ToolCfg) :
+    List (TLog ρ θ) × σ × ToolRun σ ρ κ θ :=
+  (log ++ (transcribeWithTools cfg adv s).logged, (transcribeWithTools cfg adv s).st, transcribeWithTools cfg adv s)
+
 end Operon.Loops
